@@ -26,10 +26,10 @@ type valActor struct {
 	name     string
 	genesis  bool
 	role     params.ValidatorRole
-	stake    uint64 // genesis stake / creation value in stake units
-	status   uint8  // genesis status
-	operator int    // client index of the operator account
-	created  bool   // candidate: a create transaction was applied successfully
+	stake    uint64         // genesis stake / creation value in stake units
+	status   uint8          // genesis status
+	operator int            // client index of the operator account
+	created  bool           // candidate: a create transaction was applied successfully
 	coinbase common.Address // reward address: nobody holds its key, nothing else is ever sent to it
 }
 
